@@ -204,4 +204,45 @@ theorem wbr_keyswitch (cols : Nat) (zero aDft : Val) (vmpTmp : Val → Val) (vmp
   simp only [WBR]
   refine ⟨by simp, fun a => ⟨by simp, fun t => ⟨by simp, fun r => ⟨by simp, fun r' => wbr_keyswitch_outs _ _ _ _ _ _⟩⟩⟩⟩
 
+theorem wbr_cnvProduct_cols (cnvTmp : Val → Val → Val) (cnv : Nat → Val → Val → Val → Val) (normFirst : Val → Val × Val)
+    (normRest : Val → Val → Val) :
+    ∀ (j : Nat) (acc : List Val) (W : List Nat), 0 ∈ W → 1 ∈ W → WBR W (progCnvProduct.cols_ cnvTmp cnv normFirst normRest j acc) := by
+  intro j
+  induction j with
+  | zero => intro _ _ _ _; trivial
+  | succ j ih =>
+    intro acc W h0 h1
+    simp only [progCnvProduct.cols_, WBR]
+    refine ⟨h0, fun a => ⟨h1, fun b => ⟨by simp, fun t => ⟨by simp, fun r => ?_⟩⟩⟩⟩
+    generalize normFirst r = pr
+    obtain ⟨o, cr⟩ := pr
+    exact ⟨by simp, fun _ => ih _ _ (by simp [h0]) (by simp [h1])⟩
+
+theorem wbr_cnvProduct (cols : Nat) (tmpA tmpB : Val) (prepL prepR : Val → Val) (cnvTmp : Val → Val → Val)
+    (cnv : Nat → Val → Val → Val → Val) (normFirst : Val → Val × Val) (normRest : Val → Val → Val) :
+    WBR [] (progCnvProduct cols tmpA tmpB prepL prepR cnvTmp cnv normFirst normRest) := by
+  unfold progCnvProduct
+  simp only [WBR]
+  exact ⟨by simp, fun ta => ⟨by simp, fun tb => wbr_cnvProduct_cols _ _ _ _ _ _ _ (by simp) (by simp)⟩⟩
+
+theorem wbr_blindRotationBlock (block : Nat) (accDft zero : Val) (vmpTmp : Nat → Val → Val) (vmp : Nat → Val → Val → Val)
+    (svp : Nat → Val → Val) (upd : Val → Val → Val → Val) (idft : Val → Val) (addSmall : Val → Val)
+    (normFirst : Val → Val × Val) (normRest : Val → Val → Val) :
+    WBR [] (progBlindRotationBlock block accDft zero vmpTmp vmp svp upd idft addSmall normFirst normRest) := by
+  unfold progBlindRotationBlock
+  simp only [WBR]
+  refine WBR_loopN_then _ _ [1, 0] block ?_ ?_
+  · intro i W' hs
+    have h0 : 0 ∈ W' := hs 0 (by simp)
+    have h1 : 1 ∈ W' := hs 1 (by simp)
+    simp only [WBR]
+    refine ⟨h0, fun a => ⟨by simp, fun t => ⟨by simp, fun r => ⟨by simp, fun x => ⟨by simp [h1], fun s => trivial⟩⟩⟩⟩⟩
+  · intro W' hs
+    have h1 : 1 ∈ W' := hs 1 (by simp)
+    simp only [WBR]
+    refine ⟨h1, fun s => ⟨by simp, fun b => ⟨by simp, fun b' => ?_⟩⟩⟩
+    generalize normFirst b' = pr
+    obtain ⟨o, cr⟩ := pr
+    exact ⟨by simp, fun _ => trivial⟩
+
 end ScratchProg
